@@ -133,8 +133,10 @@ class SRTWriter(BaseWriter):
             for node in caption.nodes:
                 new_content = self._recreate_line(new_content, node)
 
-            # Eliminate excessive line breaks
-            new_content = new_content.strip()
+            # Eliminate excessive line breaks; a blank line would end the cue
+            new_content = '\n'.join(
+                line for line in new_content.strip().split('\n')
+                if line.strip())
 
             srt += f"{new_content}\n\n"
             count += 1
